@@ -161,4 +161,117 @@ Proof. revert k; induction bl as [|b bl IH]; intros k; cbn [blocks_steps]; [cbn;
     exists (S m), b', j. split; [exact Hm|]. split; [exact Hj|].
     rewrite take_app_ge by lia. rewrite Ht. cbn [take blocks_steps]. rewrite (assoc_L (++)). reflexivity. Qed.
 
+
+(** ** Blocks against the apply loop of Model/Bisync.v *)
+Definition wtrees (w : work) : trees := (wA w, wB w).
+
+(** the only premise: a conflict name differs from the path it is derived from
+    (the real name is the path with a non-empty suffix appended) *)
+Lemma action_blocks_apply a b w pa : (forall p d, cname p d <> p) ->
+  foldl blk_apply (wtrees w) (action_blocks a b w pa) = wtrees (apply a b w pa).
+Proof. intros Hcn. unfold action_blocks, Bisync.apply, wtrees. destruct (wErr w) eqn:He; [reflexivity|].
+  destruct pa as [p act]. destruct act; unfold copy; cbn [foldl blk_apply fst snd].
+  - destruct (wA w !! p); reflexivity.
+  - destruct (wB w !! p); reflexivity.
+  - reflexivity.
+  - reflexivity.
+  - reflexivity.
+  - destruct (a !! p) as [fa|], (b !! p) as [fb|]; try reflexivity.
+    destruct (dge fa fb).
+    + destruct (wB w !! p) as [lc|] eqn:E1; [|reflexivity].
+      rewrite lookup_insert_ne by apply Hcn. rewrite E1.
+      rewrite lookup_insert_ne by apply Hcn.
+      destruct (wA w !! p) as [wc|] eqn:E2; reflexivity.
+    + destruct (wA w !! p) as [lc|] eqn:E1; [|reflexivity].
+      rewrite lookup_insert_ne by apply Hcn. rewrite E1.
+      rewrite lookup_insert_ne by apply Hcn.
+      destruct (wB w !! p) as [wc|] eqn:E2; reflexivity.
+  - destruct (a !! p) as [fa|], (b !! p) as [fb|]; try reflexivity.
+    + destruct (wA w !! p); reflexivity.
+    + destruct (wA w !! p); reflexivity.
+    + destruct (wB w !! p); reflexivity.
+Qed.
+
+Lemma plan_blocks_apply a b w pl : (forall p d, cname p d <> p) ->
+  foldl blk_apply (wtrees w) (plan_blocks a b w pl) = wtrees (foldl (apply a b) w pl).
+Proof. intros Hcn. revert w; induction pl as [|pa pl IH]; intros w; cbn [plan_blocks foldl]; [reflexivity|].
+  rewrite foldl_app, action_blocks_apply by exact Hcn. apply IH. Qed.
+
+(** ** Names for the parts of a run *)
+Definition w0_of (s : state) : work :=
+  {| wA := tA s; wB := tB s;
+     wC := match arch s with Some z => prune z (scan (tA s)) (scan (tB s)) | None => ∅ end;
+     wConf := 0; wErr := false |}.
+Definition plan_of (s : state) := plan (scan (tA s)) (scan (tB s)) (arch s).
+Definition wfin (s : state) : work := foldl (apply (scan (tA s)) (scan (tB s))) (w0_of s) (plan_of s).
+Definition data_blocks (s : state) := plan_blocks (scan (tA s)) (scan (tB s)) (w0_of s) (plan_of s).
+Definition data_steps (s : state) := plan_steps (scan (tA s)) (scan (tB s)) (w0_of s) (plan_of s).
+Definition arch_part (s : state) (ae : bool) : list fstep :=
+  if wErr (wfin s) then [] else arch_steps ae (wC (wfin s)).
+(** the result state of the run *)
+Definition run_state (s : state) : state := (bisync_run s).1.1.
+
+Lemma bisync_steps_eq s ae : bisync_steps s ae = data_steps s ++ arch_part s ae.
+Proof. reflexivity. Qed.
+Lemma data_steps_blocks s : data_steps s = blocks_steps (data_blocks s).
+Proof. apply plan_steps_blocks. Qed.
+Lemma run_state_eq s :
+  run_state s = {| tA := wA (wfin s); tB := wB (wfin s);
+                   arch := if wErr (wfin s) then arch s else Some (wC (wfin s)) |}.
+Proof. unfold run_state, Bisync.bisync_run. fold (w0_of s). fold (plan_of s). fold (wfin s).
+  destruct (wErr (wfin s)); reflexivity. Qed.
+Lemma run_exit_eq s :
+  (bisync_run s).1.2 = if wErr (wfin s) then ExitIoError
+                       else if decide (wConf (wfin s) = 0) then ExitOk else ExitConflicts.
+Proof. unfold Bisync.bisync_run. fold (w0_of s). fold (plan_of s). fold (wfin s).
+  destruct (wErr (wfin s)); reflexivity. Qed.
+
+(** number of archive steps up to and including the rename that publishes it *)
+Definition n_ren (ae : bool) : nat := if ae then 5 else 4.
+
+Lemma exec_arch_prefix (f : fs) ae z j :
+  let f' := exec_all f (take j (arch_steps ae z)) in
+  fA f' = fA f /\ fB f' = fB f /\ gA f' = gA f /\ gB f' = gB f /\
+  ((farch f' = farch f /\ j < n_ren ae) \/ (farch f' = None /\ j < n_ren ae) \/
+   (farch f' = Some z /\ ftmp f' = None /\ n_ren ae <= j)).
+Proof. destruct ae; (destruct j as [|[|[|[|[|[|j]]]]]]); cbn; rewrite ?take_nil; cbn; auto 10 with lia. Qed.
+
+Lemma exec_arch_all (f : fs) ae z :
+  let f' := exec_all f (arch_steps ae z) in
+  fA f' = fA f /\ fB f' = fB f /\ gA f' = gA f /\ gB f' = gB f /\ farch f' = Some z /\ ftmp f' = None.
+Proof. destruct ae; cbn; auto 10. Qed.
+
+Lemma crash_shape s ae k :
+  let f := crash s ae k in
+  let n := length (data_steps s) in
+  (k < n /\ exists m b j, data_blocks s !! m = Some b /\ j < length (blk_steps b) /\
+     f = exec_all (blocks_fs (fs_of s) (take m (data_blocks s))) (take j (blk_steps b))) \/
+  (n <= k /\ f = exec_all (blocks_fs (fs_of s) (data_blocks s)) (take (k - n) (arch_part s ae))).
+Proof. cbn zeta. unfold BisyncSteps.crash. rewrite bisync_steps_eq.
+  destruct (decide (k < length (data_steps s))) as [Hlt|Hge].
+  - left. split; [exact Hlt|]. rewrite take_app_le by lia. rewrite data_steps_blocks in *.
+    destruct (take_blocks_steps _ _ Hlt) as (m & b & j & Hm & Hj & Ht).
+    exists m, b, j. split; [exact Hm|]. split; [exact Hj|].
+    rewrite Ht, <- exec_all_app, exec_blocks. reflexivity.
+  - right. split; [lia|]. rewrite take_app_ge by lia. rewrite <- exec_all_app.
+    rewrite data_steps_blocks at 1. rewrite exec_blocks. reflexivity. Qed.
+
+Lemma data_blocks_trees s : (forall p d, cname p d <> p) ->
+  foldl blk_apply (tA s, tB s) (data_blocks s) = (wA (wfin s), wB (wfin s)).
+Proof. intros Hcn. exact (plan_blocks_apply _ _ (w0_of s) (plan_of s) Hcn). Qed.
+
+(** ** 1. executing every step gives the result of the run *)
+Lemma steps_agree_lemma s ae : (forall p d, cname p d <> p) ->
+  let f := exec_all (fs_of s) (bisync_steps s ae) in
+  fA f = tA (run_state s) /\ fB f = tB (run_state s) /\ farch f = arch (run_state s) /\
+  gA f = ∅ /\ gB f = ∅ /\ ftmp f = None.
+Proof. intros Hcn. cbn zeta. rewrite bisync_steps_eq, <- exec_all_app, data_steps_blocks, exec_blocks, run_state_eq.
+  destruct (blocks_fs_proj (fs_of s) (data_blocks s)) as (A & B & C & E & F & G).
+  cbn [fs_of fA fB] in A. rewrite data_blocks_trees in A by exact Hcn.
+  injection A as A1 A2. specialize (B eq_refl). specialize (C eq_refl).
+  unfold arch_part. cbn [tA tB arch]. destruct (wErr (wfin s)).
+  - cbn [exec_all foldl]. rewrite A1, A2, B, C, E, F. cbn. auto 10.
+  - destruct (exec_arch_all (blocks_fs (fs_of s) (data_blocks s)) ae (wC (wfin s))) as (P1 & P2 & P3 & P4 & P5 & P6).
+    rewrite P1, P2, P3, P4, P5, P6, A1, A2, B, C. auto 10. Qed.
+
 End P.
